@@ -143,7 +143,7 @@ class TemporalEventsData(Block):
             return False
         return (
             self.format == other.format
-            and self.start_time == other.start_time
+            and f32.btype.type(self.start_time) == f32.btype.type(other.start_time)
             and len(self.events) == len(other.events)
             and all(e1 == e2 for e1, e2 in zip(self.events, other.events))
         )
